@@ -20,6 +20,7 @@ res="$res demo_without_patch=$d2"
 git -C /repo worktree remove --force $WT
 unset CARGO_TARGET_DIR
 echo "$res"
+rm -rf /tmp/evidence_backup && cp -r /verif/evidence /tmp/evidence_backup
 git -C /repo apply $dir/patch.diff || { echo "cannot apply to /repo"; exit 2; }
 for pid in "$@"; do
   out=$(cd /verif && ./check $pid 2>&1 | grep -E "VIOLATION|^OK|KNOWN" | grep -v KNOWN | tail -1)
@@ -33,3 +34,5 @@ PY
   fi
 done
 git -C /repo checkout -- . ; git -C /repo status --short | head -3
+# evidence written while a seed was applied is not evidence about the tree: put the clean files back
+rm -rf /verif/evidence && mv /tmp/evidence_backup /verif/evidence
